@@ -111,6 +111,10 @@ class ConditionEstimator:
         if np.isinf(cond):
             return 0.0
 
+        if not (cond > 0.0):
+            # products under- / overflowed or the matrix is singular: no meaningful estimate
+            raise LinearSolverError("Condition estimate failed")
+
         rcond = 1.0 / cond
 
         return rcond
